@@ -259,44 +259,50 @@ type shape struct {
 
 func classify(in input) shape {
 	sh := shape{wf: true}
-	started := map[uint64]bool{}
-	ended := map[uint64]bool{}
+	running := map[uint64]bool{} // a task with this ID is running
+	everEnded := map[uint64]bool{}
 	marked := map[uint64]bool{}
 	tracing, term := false, false
 	var last uint64
 	nonAlt, sameInstant := false, false
+	earlyNote, repeatedEnd, unknownEnd, reuse := false, false, false, false
 	mileTimes := map[uint64]map[uint64]bool{}
 	windows := 0
-	for i, op := range in.Ops {
+	for _, op := range in.Ops {
 		if op.T < last || term {
 			sh.wf = false
 		}
 		last = op.T
-		live := func(id uint64) bool { return started[id] && !ended[id] }
 		switch op.K {
 		case "s":
-			if started[op.ID] || ended[op.ID] || op.ID == 0 || op.Kind == 0 || op.What == 0 || op.Loc == 0 {
+			if running[op.ID] || op.ID == 0 || op.Kind == 0 || op.What == 0 || op.Loc == 0 {
 				sh.wf = false
 			}
-			started[op.ID] = true
+			if everEnded[op.ID] {
+				reuse = true
+			}
+			running[op.ID] = true
 			marked[op.ID] = tracing
 		case "e":
-			if !live(op.ID) {
-				sh.wf = false
-			} else {
+			if running[op.ID] {
 				sh.tasks++
 				if !marked[op.ID] {
 					sh.unrecorded = true
 				}
+				everEnded[op.ID] = true
+			} else if everEnded[op.ID] {
+				repeatedEnd = true
+			} else {
+				unknownEnd = true
 			}
-			ended[op.ID] = true
+			running[op.ID] = false
 		case "g":
-			if !live(op.Task) {
-				sh.wf = false
+			if !running[op.Task] {
+				earlyNote = true
 			}
 		case "m":
-			if !live(op.Task) {
-				sh.wf = false
+			if !running[op.Task] {
+				earlyNote = true
 			}
 			if mileTimes[op.Task] == nil {
 				mileTimes[op.Task] = map[uint64]bool{}
@@ -310,8 +316,8 @@ func classify(in input) shape {
 				nonAlt = true
 			} else {
 				windows++
-				for id := range started {
-					if !ended[id] {
+				for id, r := range running {
+					if r {
 						if !marked[id] {
 							sh.straddle = true
 						}
@@ -328,7 +334,6 @@ func classify(in input) shape {
 		case "term":
 			term = true
 			tracing = false
-			_ = i
 		}
 	}
 	add := func(b bool, s string) {
@@ -343,6 +348,10 @@ func classify(in input) shape {
 	add(term, "control:terminated")
 	add(!term, "control:not-terminated")
 	add(sameInstant, "milestone:same-instant")
+	add(earlyNote, "note:task-not-running")
+	add(repeatedEnd, "end:repeated")
+	add(unknownEnd, "end:unknown-id")
+	add(reuse, "id:reused")
 	add(sh.straddle, "task:straddles-start")
 	add(sh.unrecorded, "task:outside-windows")
 	add(windows >= 2, "windows:2+")
@@ -367,6 +376,20 @@ func gen(r *hx.Rand, tier string) []json.RawMessage {
 		{K: "g", ID: 50, Task: 1, What: 4, T: 12}, {K: "m", ID: 60, Task: 1, Kind: 5, What: 6, T: 12},
 		{K: "m", ID: 61, Task: 1, Kind: 7, What: 8, T: 12}, {K: "e", ID: 1, T: 20}, {K: "off", T: 20}, {K: "term", T: 20}})
 	add(nil)
+	st := func(id, t uint64) Op { return Op{K: "s", ID: id, Kind: 1, What: 2, Loc: 3, T: t} }
+	// a task first mentioned by a tag / milestone, inside and outside a window
+	add([]Op{{K: "on", T: 1}, {K: "g", ID: 50, Task: 7, What: 4, T: 2}, {K: "m", ID: 51, Task: 7, Kind: 5, What: 6, T: 2},
+		st(7, 3), {K: "g", ID: 52, Task: 7, What: 4, T: 4}, {K: "e", ID: 7, T: 5}, {K: "off", T: 6}, {K: "term", T: 7}})
+	add([]Op{{K: "g", ID: 50, Task: 7, What: 4, T: 1}, {K: "on", T: 2}, {K: "off", T: 3}, st(7, 4), {K: "e", ID: 7, T: 5},
+		{K: "term", T: 6}})
+	add([]Op{{K: "g", ID: 50, Task: 9, What: 4, T: 1}, {K: "on", T: 2}, {K: "e", ID: 9, T: 3}, st(9, 4), {K: "e", ID: 9, T: 5},
+		{K: "term", T: 6}})
+	// a repeated end and a reused ID around a window the task never overlapped
+	add([]Op{st(7, 10), {K: "e", ID: 7, T: 20}, {K: "on", T: 100}, {K: "e", ID: 7, T: 150}, {K: "off", T: 200}, {K: "term", T: 300}})
+	add([]Op{st(9, 10), {K: "e", ID: 9, T: 20}, {K: "on", T: 100}, {K: "off", T: 200}, st(9, 300), {K: "e", ID: 9, T: 310},
+		{K: "term", T: 400}})
+	add([]Op{{K: "on", T: 1}, st(9, 10), {K: "e", ID: 9, T: 20}, {K: "e", ID: 9, T: 21}, st(9, 30), {K: "e", ID: 9, T: 40},
+		{K: "off", T: 50}, {K: "term", T: 60}})
 
 	for len(out) < n {
 		add(genHistory(r))
@@ -403,10 +426,32 @@ func genHistory(r *hx.Rand) []Op {
 	}
 	fresh := func() uint64 { nextID += 1 + r.U64n(3); return nextID }
 	var live []uint64
+	var ended []uint64     // IDs whose task ended (repeated ends, reuse)
+	var mentioned []uint64 // IDs only mentioned by a tag / milestone so far
 	started := 0
 	pOn := 1 + r.Intn(4)  // weight of StartTracing
 	pOff := 1 + r.Intn(4) // weight of StopTracing
+	odd := r.Intn(4)      // weight of the unusual (but legal) orders below; 0 = none
 	steps := ntask*4 + r.Intn(10)
+	startTask := func(id uint64) {
+		live = append(live, id)
+		started++
+		ops = append(ops, Op{K: "s", ID: id, Parent: r.U64n(5), Kind: 1 + r.U64n(4), What: 1 + r.U64n(6),
+			Loc: 1 + r.U64n(5), T: now})
+	}
+	note := func(task uint64) {
+		if r.Bool() {
+			ops = append(ops, Op{K: "g", ID: fresh(), Task: task, What: 1 + r.U64n(4), T: now})
+		} else {
+			ops = append(ops, Op{K: "m", ID: fresh(), Task: task, Kind: 1 + r.U64n(3), What: 1 + r.U64n(3), T: now})
+		}
+	}
+	pickDel := func(l *[]uint64) uint64 {
+		j := r.Intn(len(*l))
+		v := (*l)[j]
+		*l = append((*l)[:j], (*l)[j+1:]...)
+		return v
+	}
 	for i := 0; i < steps || len(live) > 0 && r.Chance(9, 10); i++ {
 		tick()
 		wStart := 6
@@ -417,16 +462,22 @@ func genHistory(r *hx.Rand) []Op {
 		if len(live) > 0 {
 			wLive = 1
 		}
-		switch r.Pick(wStart, 5*wLive, 3*wLive, 5*wLive, pOn, pOff) {
+		wEnded := 0
+		if len(ended) > 0 {
+			wEnded = 1
+		}
+		wMent := 0
+		if len(mentioned) > 0 {
+			wMent = 1
+		}
+		switch r.Pick(wStart, 5*wLive, 3*wLive, 5*wLive, pOn, pOff,
+			odd, odd*wEnded, odd*wEnded, odd*wMent*2, odd*wEnded, 1*odd) {
 		case 0:
-			id := fresh()
-			live = append(live, id)
-			started++
-			ops = append(ops, Op{K: "s", ID: id, Parent: r.U64n(5), Kind: 1 + r.U64n(4), What: 1 + r.U64n(6),
-				Loc: 1 + r.U64n(5), T: now})
+			startTask(fresh())
 		case 1:
 			j := r.Intn(len(live))
 			ops = append(ops, Op{K: "e", ID: live[j], T: now})
+			ended = append(ended, live[j])
 			live = append(live[:j], live[j+1:]...)
 		case 2:
 			ops = append(ops, Op{K: "g", ID: fresh(), Task: live[r.Intn(len(live))], What: 1 + r.U64n(4), T: now})
@@ -435,8 +486,33 @@ func genHistory(r *hx.Rand) []Op {
 				What: 1 + r.U64n(3), T: now})
 		case 4:
 			ops = append(ops, Op{K: "on", T: now})
-		default:
+		case 5:
 			ops = append(ops, Op{K: "off", T: now})
+		case 6: // a tag / milestone that mentions a task before its StartTask
+			id := fresh()
+			mentioned = append(mentioned, id)
+			for k := 1 + r.Intn(3); k > 0; k-- {
+				note(id)
+			}
+		case 7: // a repeated end of a task that already ended (e.g. a reset path's blanket end)
+			ops = append(ops, Op{K: "e", ID: ended[r.Intn(len(ended))], T: now})
+		case 8: // the ID of an ended task is used again by a new task
+			startTask(pickDel(&ended))
+		case 9: // the mentioned task starts (or its mention is closed by a stray end)
+			id := pickDel(&mentioned)
+			if r.Chance(1, 5) {
+				ops = append(ops, Op{K: "e", ID: id, T: now})
+				if r.Bool() {
+					mentioned = append(mentioned, id)
+					note(id)
+				}
+			} else {
+				startTask(id)
+			}
+		case 10: // a tag / milestone for a task that already ended (waits for a reuse of the ID)
+			note(ended[r.Intn(len(ended))])
+		default: // an end of an ID no task ever had
+			ops = append(ops, Op{K: "e", ID: 1<<40 + r.U64n(4), T: now})
 		}
 		if i > 400 {
 			break
@@ -553,8 +629,10 @@ func init() {
 		Imports: "From Akita Require Import Lib.Base C36.Model C36.Exec.",
 		Rule: "random histories of 1..24 tasks (unique IDs, some above 2^62) with tags and milestones on running tasks (several per instant), " +
 			"same-instant and large clock steps (times < 2^53), interleaved with StartTracing/StopTracing calls in ANY order (random on/off " +
-			"weights, so repeated starts and stops without start are common), usually ending with Terminate; ~12% ill-formed histories " +
-			"(duplicate/invalid starts, ends/tags/milestones of unknown tasks, clock going back, calls after Terminate, double Terminate) " +
+			"weights, so repeated starts and stops without start are common), usually ending with Terminate; in 3/4 of the histories also " +
+			"the unusual legal orders: tags/milestones that mention a task before its StartTask (then the start, or a stray end), repeated " +
+			"ends of ended tasks, ends of unknown IDs, notes on ended tasks, and IDs reused by a new task after the end; ~12% ill-formed " +
+			"histories (a start while the ID is running, invalid starts, clock going back, calls after Terminate, double Terminate) " +
 			"exercise only the tie. Non-trivial: well-formed, >= 3 completed tasks, one task running when tracing is switched on, one " +
 			"completed task outside every window, and at least one recorded row. Distinct = distinct input hash.",
 		Gen: gen, Run: run, Shrink: shrink,
